@@ -2024,7 +2024,10 @@ dnsname_to_labels(u8 *const buf, size_t buf_len, off_t j,
 	/* the labels must be terminated by a 0. */
 	/* It's possible that the name ended in a . */
 	/* in which case the zero is already there */
-	if (!j || buf[j-1]) buf[j++] = 0;
+	if (!j || buf[j-1]) {
+		if ((size_t)j + 1 > buf_len) return -2;
+		buf[j++] = 0;
+	}
 	/* RFC 1035 2.3.4: at most 255 octets on the wire */
 	if (j - name_start > 255) return -2;
 	return j;
